@@ -119,20 +119,16 @@ func (r *c13Refcount) run() {
 		}
 		return out
 	}
-	// receive checks that a datagram for the ufrag reaches exactly one of the open handles with a pending read
+	// Invariant between steps: every open handle has exactly one ReadFrom pending. Which of several readers
+	// of one connection gets a datagram is up to the Go runtime; with the invariant the state afterwards does
+	// not depend on it.
+	// receive checks that a datagram for the ufrag reaches exactly one of the open handles.
 	receive := func(when string) bool {
 		var waiting []*c13H
 		for _, h := range open() {
-			if h.rd == nil && t.Bias(2, 3, "pendread") {
+			if h.rd == nil {
 				h.rd = c13StartRead(h)
 			}
-			if h.rd != nil {
-				waiting = append(waiting, h)
-			}
-		}
-		if len(waiting) == 0 {
-			h := open()[0]
-			h.rd = c13StartRead(h)
 			waiting = append(waiting, h)
 		}
 		synctest.Wait()
@@ -154,7 +150,7 @@ func (r *c13Refcount) run() {
 				return false
 			}
 			got++
-			h.rd = nil
+			h.rd = c13StartRead(h)
 		}
 		if got != 1 {
 			c.Failf("C13/"+r.kind+"/sibling-receive-fails", "%s: a datagram for the ufrag was received by %d of the %d open handles waiting in ReadFrom", when, got, len(waiting))
@@ -170,7 +166,7 @@ func (r *c13Refcount) run() {
 		c.Step++
 		op := open()
 		v := op[t.Choose(len(op), "victim")]
-		if v.rd == nil && t.Bias(3, 4, "victimread") {
+		if v.rd == nil {
 			v.rd = c13StartRead(v)
 			synctest.Wait()
 		}
